@@ -605,3 +605,29 @@ PROPS["C17"] = dict(
           "new placement run on identical inputs give bit-identical destination arrays and accumulators."),
     assumptions=["ORC_CODE is unset", "x86 runs only use flag sets within the machine's features"],
 )
+
+CG_SETS = ["cg_inc=-I{repo} -I{build}", "scratch={scratch}", "repo={repo}", "genemu={build}/tools/generate-emulation"]
+
+PROPS["C04"] = dict(
+    variant="plain",
+    sources=ENGINE + ["engine/cgen.c", "engine/refsem.c", "engine/refprog.c", "props/c04_csource.c"],
+    ldflags=["-ldl"],
+    set=CG_SETS,
+    excludes=[],
+    level="exploration",
+    technique="differential property-based testing (rapidcheck): the C text Orc generates is compiled with gcc at case time and run against orc_executor_emulate on identical guarded arenas; plus a regenerate-and-compare of the checked-in emulator",
+    level_text=("generated programs x three C-target forms (complete function, orcc's backup body, orcc's DISABLE_ORC body) x gcc -O0/-O2/-O3 x "
+                "1..6 run configurations each: destination bytes, accumulators and untouched surroundings are compared with emulation; the "
+                "checked-in orcemulateopcodes.c/.h are regenerated with tools/generate-emulation and compared line by line. Sampled, not exhaustive"),
+    level_note=("trusted base: gcc 12 as 'a C compiler', the wrapper that unpacks an executor into the named arguments of the NOEXEC form "
+                "(engine/cgen.c), the arena comparison; programs the C target refuses are discarded (classification is C05's subject)"),
+    stages=[
+        dict(name="enum-emulator-regeneration", mode="enum", quick=dict(workers=1), thorough=dict(workers=1)),
+        dict(name="rc-generated-c", mode="rc", quick=dict(cases=14000, max_size=500, budget=50), thorough=dict(cases=500000, max_size=800, budget=1500)),
+    ],
+    rule=("a case is (program, C-target form, gcc optimisation level, 1..6 run configurations); every run is an inner evaluation. Non-trivial: "
+          "the C target accepted the program, gcc produced a loadable object and at least one run was compared. Oracle: bytes of every "
+          "destination array, accumulators, and all bytes outside the entitled destination elements equal between the gcc-compiled "
+          "source and orc_executor_emulate; a source gcc rejects is a violation; regenerated emulator files equal the checked-in ones."),
+    assumptions=["gcc 12.2 -std=gnu11 -fno-fast-math -ffp-contract=off stands for 'a C compiler'"],
+)
